@@ -34,6 +34,8 @@ def event_case(draw, part, terminal_mode="none", max_events=6):
     frac = draw(st.sampled_from([1 / 4.0, 1 / 8.0, 1 / 16.0, 0.1, 0.3] if slow else [1 / 4.0, 1 / 8.0, 1 / 16.0, 1 / 32.0, 0.1, 0.3, 0.03]))
     if far and not slow:
         frac = draw(st.sampled_from([1 / 32.0, 1 / 256.0, 1 / 1024.0]))
+    elif draw(st.integers(0, 7)) == 0:
+        frac = draw(st.sampled_from([1.0, 2.5]))      # an initial step as long as / longer than the whole span (the library halves it)
     nev = draw(st.integers(1, max_events if not slow else 3))
     evs = []
     for i in range(nev):
